@@ -1,4 +1,4 @@
-import VibeProof.Model.DmlFk
+import VibeProof.Lemmas.DmlFk
 /-
 C12 — referential integrity holds after every statement.
 
@@ -153,6 +153,152 @@ example : fk1.onDeleteParent .cascade children1 [.int 1, .int 10] = some [[.int 
 example : fk1.onDeleteParent .setNull children1 [.int 1, .int 10] =
     some [[.int 1, .null], [.int 2, .null], [.int 3, .int 2], [.int 4, .null]] := by decide
 example : fk1.onDeleteParent .noAction children1 [.int 1, .int 10] = none := by decide
+
+
+/-! ### the recursive cascade over several tables and foreign keys (Model/DmlFk.lean, second part) -/
+
+/-- Termination: if the reference graph is ranked (`rank child < rank parent` for every foreign
+key — acyclic, no self-reference), the whole DELETE, including every nested
+`check_no_child_references` / `cascade_delete`, finishes within fuel `rank t + 1`; in particular
+`fuel = number of tables` suffices for a rank below the number of tables. -/
+theorem C12_cascade_terminates (fks : List FkDecl) (rank : Nat → Nat) (hr : Ranked fks rank)
+    (fuel : Nat) (db : Db) (t : Nat) (sel : Row → Bool) (hf : rank t < fuel) :
+    deleteWithFks fks fuel db t sel ≠ .error .fuel := by
+  unfold deleteWithFks deleteVictims
+  split
+  · rename_i e he
+    intro h; simp only [Except.error.injEq] at h; subst h
+    exact runVictims_fuel _ (fun db v => checkRow_terminates fks rank hr fuel db t v hf) _ _ he
+  · simp
+
+/-- Preservation, for every database, every selection of parent rows, every depth of cascade
+(CASCADE / NO ACTION schemas): an accepted DELETE keeps *every* foreign key of the schema, only
+removes rows, and removes every selected row. -/
+theorem C12_delete_cascade_preserves (fks : List FkDecl) (hco : CascadeOnly fks) (fuel : Nat) (db db' : Db)
+    (t : Nat) (sel : Row → Bool) (h : DbInv fks db) (hr : deleteWithFks fks fuel db t sel = .ok db') :
+    DbInv fks db' ∧ Sub db' db ∧ ∀ r ∈ db' t, sel r = false := by
+  obtain ⟨a1, a2, a3⟩ := deleteVictims_post fks (fun t db v => checkRow fks fuel db t v)
+    (checkRow_spec fks hco fuel) t _ db db' h hr
+  refine ⟨a1, a2, ?_⟩
+  intro r hr'
+  cases hs : sel r with
+  | false => rfl
+  | true => exact absurd (List.mem_filter.mpr ⟨a2 _ r hr', hs⟩) (a3 r hr')
+
+/-- the transitive referencing closure of the selected rows along ON DELETE CASCADE keys -/
+inductive Reach (fks : List FkDecl) (db : Db) (t : Nat) (sel : Row → Bool) : Nat → Row → Prop where
+  | root (r : Row) : r ∈ db t → sel r = true → Reach fks db t sel t r
+  | step (p : Nat) (pr : Row) (d : FkDecl) (c : Row) : Reach fks db t sel p pr → d ∈ fks → d.parent = p →
+      d.onDelete = .cascade → c ∈ db d.child → d.fk.refers (keyOf d.pcols pr) c = true →
+      Reach fks db t sel d.child c
+
+/-- parent keys are unique (PRIMARY KEY, C10) -/
+def ParentKeysUnique (fks : List FkDecl) (db : Db) : Prop :=
+  ∀ d ∈ fks, ∀ p ∈ db d.parent, ∀ q ∈ db d.parent, keyOf d.pcols p = keyOf d.pcols q → p = q
+
+/-- every row of the closure is gone after an accepted DELETE -/
+theorem C12_cascade_removes_closure (fks : List FkDecl) (hco : CascadeOnly fks) (fuel : Nat) (db db' : Db)
+    (t : Nat) (sel : Row → Bool) (h : DbInv fks db) (hu : ParentKeysUnique fks db)
+    (hr : deleteWithFks fks fuel db t sel = .ok db') :
+    ∀ i r, Reach fks db t sel i r → r ∉ db' i := by
+  obtain ⟨a1, a2, a3⟩ := C12_delete_cascade_preserves fks hco fuel db db' t sel h hr
+  intro i r hreach
+  induction hreach with
+  | root r _ hs => intro hm; rw [a3 r hm] at hs; exact absurd hs (by simp)
+  | step p pr d c _ hd hp _ hc href ih =>
+    intro hm
+    simp only [Fk.refers, Bool.and_eq_true, Bool.not_eq_true', beq_iff_eq] at href
+    obtain ⟨q, hq, hk⟩ := a1 d hd c hm href.1
+    have hq0 : q ∈ db d.parent := a2 _ q hq
+    have hpr : pr ∈ db d.parent := by
+      rw [hp]
+      rename_i hreach' _
+      cases hreach' with
+      | root _ hm' _ => exact hm'
+      | step _ _ _ _ _ _ hp' _ hc' _ => exact hc'
+    have : q = pr := hu d hd q hq0 pr hpr (by
+      have e : d.fk.pcols = d.pcols := rfl
+      rw [e] at hk; rw [hk]; exact href.2)
+    subst this
+    exact ih (hp ▸ hq)
+
+/-- ON UPDATE CASCADE: the referrers' key columns are rewritten to the new parent key and the
+invariant holds for every parent table that contains the updated row and keeps all rows with a
+different key.  (`hset`: writing a key into the key columns and reading it back gives that key —
+true for well-formed foreign keys, `setCols_single` for one column.) -/
+theorem C12_update_parent_cascade_preserves (fk : Fk) (parents parents' children ch' : List Row) (p p' : Row)
+    (h : FKInv fk parents children)
+    (hkeep : ∀ q ∈ parents, keyOf fk.pcols q ≠ keyOf fk.pcols p → q ∈ parents')
+    (hnew : p' ∈ parents')
+    (hset : ∀ c ∈ children, keyOf fk.cols (Fk.setCols fk.cols (keyOf fk.pcols p') c) = keyOf fk.pcols p')
+    (ha : fk.onUpdateParent .cascade children p p' = some ch') : FKInv fk parents' ch' := by
+  unfold Fk.onUpdateParent at ha
+  simp only [] at ha
+  have hsurv : ∀ c ∈ children, keyOf fk.cols c ≠ keyOf fk.pcols p → hasNull (keyOf fk.cols c) = false →
+      ∃ q ∈ parents', keyOf fk.pcols q = keyOf fk.cols c := by
+    intro c hc hne hn
+    obtain ⟨q, hq, hk⟩ := h c hc hn
+    exact ⟨q, hkeep q hq (by rw [hk]; exact hne), hk⟩
+  split at ha
+  · simp only [Option.some.injEq] at ha; subst ha
+    intro c' hc' hn
+    obtain ⟨c, hc, rfl⟩ := List.mem_map.mp hc'
+    by_cases hk : keyOf fk.cols c = keyOf fk.pcols p
+    · simp only [hk, beq_self_eq_true, if_true] at hn ⊢
+      exact ⟨p', hnew, (hset c hc).symm⟩
+    · have hk' : (keyOf fk.cols c == keyOf fk.pcols p) = false := by simpa using hk
+      simp only [hk'] at hn ⊢
+      exact hsurv c hc hk hn
+  · rename_i hno
+    simp only [List.any_eq_true, beq_iff_eq, not_exists, not_and] at hno
+    simp only [Option.some.injEq] at ha; subst ha
+    intro c hc hn
+    exact hsurv c hc (hno c hc) hn
+
+theorem setCols_single (i : Nat) (pc : List Nat) (k : Value) (c : Row) (hi : i < c.length) :
+    keyOf [i] (Fk.setCols [i] [k] c) = [k] := by
+  simp [Fk.setCols, keyOf, List.getD, hi]
+
+/-! non-vacuity: three-level chain PAR(0) ← CH(1) ← GC(2), both CASCADE -/
+
+def chainFks : List FkDecl :=
+  [{ child := 1, parent := 0, cols := [1], pcols := [0], onDelete := .cascade },
+   { child := 2, parent := 1, cols := [1], pcols := [0], onDelete := .cascade }]
+
+def chainDb : Db := fun i => match i with
+  | 0 => [[.int 1, .int 0], [.int 2, .int 0]]
+  | 1 => [[.int 10, .int 1], [.int 11, .int 1], [.int 12, .int 2]]
+  | 2 => [[.int 100, .int 10], [.int 101, .int 12], [.int 102, .null]]
+  | _ => []
+
+example : Ranked chainFks (fun i => 2 - i) := by
+  intro d hd; simp [chainFks] at hd; rcases hd with rfl | rfl <;> decide
+example : CascadeOnly chainFks := by
+  intro d hd; simp [chainFks] at hd; rcases hd with rfl | rfl <;> simp
+example : (match deleteWithFks chainFks 3 chainDb 0 (fun r => r.getD 0 .null == .int 1) with
+    | .ok db => [db 0, db 1, db 2]
+    | .error _ => []) =
+    [[[.int 2, .int 0]], [[.int 12, .int 2]], [[.int 101, .int 12], [.int 102, .null]]] := by decide
+
+/-- the cyclic case stays the recorded finding: on a CASCADE cycle (1 → 2 → 1 in one
+self-referencing table) the recursion never bottoms out — whatever the fuel, the model runs out
+of it (the real code overflows its stack; replayed in a subprocess by the harness) -/
+def cycleFks : List FkDecl := [{ child := 0, parent := 0, cols := [1], pcols := [0], onDelete := .cascade }]
+def cycleDb : Db := fun i => if i = 0 then [[.int 1, .int 2], [.int 2, .int 1]] else []
+
+theorem C12_cyclic_cascade_exhausts_fuel (fuel : Nat) :
+    ∀ (db : Db), db 0 = [[.int 1, .int 2], [.int 2, .int 1]] →
+      checkRow cycleFks fuel db 0 [.int 1, .int 2] = .error .fuel ∧
+      checkRow cycleFks fuel db 0 [.int 2, .int 1] = .error .fuel := by
+  induction fuel with
+  | zero => intro db _; simp [checkRow]
+  | succ f ih =>
+    intro db hdb
+    obtain ⟨ih1, ih2⟩ := ih db hdb
+    simp only [cycleFks] at ih1 ih2
+    constructor <;>
+      simp [checkRow, cycleFks, hdb, runActs, applyAct, deleteVictims, runVictims, FkDecl.fk, Fk.refers,
+        keyOf, hasNull, Value.isNull, List.getD, ih1, ih2]
 
 /-! the part the code as it is violates -/
 
